@@ -229,8 +229,8 @@ class M:
                         self.value.discard(o[1])
                         eff = True
                 elif o[0] == "clear":
-                    if self.value:
-                        eff = True
+                    if self.value or self.valid:
+                        eff = True      # clear() of an already empty (valid) set is still a write: an empty tick
                     self.value.clear()
                 elif o[0] == "touch":
                     eff = True
@@ -271,6 +271,23 @@ class M:
         if k == "i":
             eff = self.value[op["i"]].apply(op["op"], t)
             return eff
+        if k == "setd":
+            # whole-dictionary write: keys missing from the new contents are removed, the listed ones are written
+            new = {kk: vv for kk, vv in op["v"]}
+            eff = False
+            for kk in [x for x in self.value if x not in new]:
+                del self.value[kk]
+                self.erased_now.add(kk)
+                eff = True
+            for kk, vv in new.items():
+                c = self.value.get(kk)
+                if c is None:
+                    c = self.value[kk] = M(self.s[2])
+                c.apply({"k": "set", "v": vv}, t)
+                eff = True
+            # an empty value written to an empty dictionary still makes it valid (a tick of the empty collection)
+            self.mark(t)
+            return True
         if k == "setv":
             # whole-value write of a partially populated bundle value: only the populated leaves are written
             if self.k == "TS":
@@ -351,6 +368,13 @@ def gen_op(draw, m: M, t, opts):
             else:
                 emit(["add", fresh()])
         return {"k": "S", "ops": ops}
+    if k == "TSD" and opts.get("whole_dict") and m.s[1] == "int" and m.s[2] == ("TS", "int") and not m.touched() and draw(st.integers(0, 3)) == 0:
+        # whole-dictionary write (copy or move flavour): only as the first operation on the dictionary in a cycle
+        universe = opts.get("keys", 8)
+        new = sorted(draw(st.sets(st.integers(0, universe), max_size=5)))
+        op = {"k": "setd", "v": [[kk, draw(st.integers(-3, 30))] for kk in new], "move": draw(st.booleans())}
+        m.apply(op, t)
+        return op
     if k == "TSD":
         child = m.s[2]
         leaf = child[0] == "TS"
